@@ -69,6 +69,10 @@ class Vec(metaclass=Meta):
         return "<%s>" % "|".join(map(str, self.xs))
 
     def __eq__(self, other):
+        # not reflexive by construction (like NaN / expression-building classes) and stateful: it counts its calls
+        self.eq_calls = getattr(self, "eq_calls", 0) + 1
+        if other is self:
+            return len(self.xs) % 2 == 0
         return isinstance(other, Vec) and self.xs == other.xs or (type(other) is tuple and tuple(self.xs) == other)
 
     def __ne__(self, other):
@@ -210,6 +214,8 @@ def steps_list(rng, mode):
         ("ne", lambda o, e: o != seq), ("lt_int", lambda o, e: o < 3), ("iadd_tuple", lambda o, e: operator.iadd(o, seq)),
         ("imul", lambda o, e: operator.imul(o, k)), ("add_bad", lambda o, e: o + 5), ("getitem_str", lambda o, e: o["x"]),
         ("sum_like", lambda o, e: len([x for x in o])),
+        ("eq_self", lambda o, e: o == o), ("add_self", lambda o, e: o + o), ("extend_self", lambda o, e: o.extend(o) if False else operator.iadd(o, o)),
+        ("contains_self", lambda o, e: o in o), ("le_self", lambda o, e: o <= o),
         ("sorted", lambda o, e: sorted(o, key=repr)), ("enumerate", lambda o, e: list(enumerate(o))[:3]),
     ]
     public = [
@@ -232,6 +238,7 @@ def steps_dict(rng, mode):
         ("getitem", lambda o, e: o[k]), ("setitem", lambda o, e: operator.setitem(o, k, v)), ("delitem", lambda o, e: operator.delitem(o, k)),
         ("len", lambda o, e: len(o)), ("contains", lambda o, e: k in o), ("iter_keys", lambda o, e: list(o)), ("repr", lambda o, e: repr(o)),
         ("bool", lambda o, e: bool(o)), ("hash", lambda o, e: hash(o)), ("eq", lambda o, e: o == 5), ("or_bad", lambda o, e: o | 5),
+        ("eq_self", lambda o, e: o == o), ("ne_self", lambda o, e: o != o),
         ("setitem_unhashable_ok", lambda o, e: operator.setitem(o, (k, 1), v)),
     ]
     public = [
@@ -254,7 +261,8 @@ def steps_set(rng, mode):
         ("rsub", lambda o, e: sorted(fs - o, key=repr)), ("le", lambda o, e: o <= fs), ("ge", lambda o, e: o >= fs), ("lt", lambda o, e: o < fs),
         ("eq", lambda o, e: o == fs), ("ior", lambda o, e: sorted(operator.ior(o, fs), key=repr)), ("iand", lambda o, e: sorted(operator.iand(o, fs), key=repr)),
         ("isub", lambda o, e: sorted(operator.isub(o, fs), key=repr)), ("iter_sorted", lambda o, e: sorted(o, key=repr)), ("bool", lambda o, e: bool(o)),
-        ("hash", lambda o, e: hash(o)), ("or_bad", lambda o, e: o | 3),
+        ("hash", lambda o, e: hash(o)), ("or_bad", lambda o, e: o | 3), ("eq_self", lambda o, e: o == o), ("or_self", lambda o, e: sorted(o | o, key=repr)),
+        ("sub_self", lambda o, e: sorted(o - o, key=repr)), ("le_self", lambda o, e: o <= o), ("lt_self", lambda o, e: o < o),
     ]
     public = [
         ("add", lambda o, e: o.add(v)), ("discard", lambda o, e: o.discard(v)), ("remove", lambda o, e: o.remove(v)),
@@ -312,6 +320,7 @@ def steps_vec(rng, mode):
         ("add_notimpl", lambda o, e: o + "s"), ("getitem", lambda o, e: o[i]), ("setitem", lambda o, e: operator.setitem(o, i, n)), ("delitem", lambda o, e: operator.delitem(o, i)),
         ("contains", lambda o, e: n in o), ("len", lambda o, e: len(o)), ("bool", lambda o, e: bool(o)), ("hash", lambda o, e: hash(o)),
         ("eq_tuple", lambda o, e: o == (1, 2)), ("ne", lambda o, e: o != (1, 2)), ("lt_tuple", lambda o, e: o < (5,)), ("lt_bad", lambda o, e: o < 3),
+        ("eq_self", lambda o, e: o == o), ("ne_self", lambda o, e: o != o), ("contains_self", lambda o, e: o in o),
         ("iter", lambda o, e: list(o)), ("repr", lambda o, e: repr(o)), ("str", lambda o, e: str(o)), ("format", lambda o, e: "%s|%r" % (o, o)), ("with", with_block),
         ("exposed_sum", lambda o, e: o.exposed_sum()), ("exposed_sum_kw", lambda o, e: o.exposed_sum(extra=5)), ("exposed_tag", lambda o, e: o.exposed_tag),
         ("int", lambda o, e: int(o)), ("divmod", lambda o, e: divmod(o, 2)),
@@ -410,7 +419,7 @@ def snapshot(kind, obj):
     if kind in ("cls", "cls_shadowed"):
         return sorted(k for k in obj.__dict__ if not k.startswith("__"))
     if kind == "vec":
-        return (view(obj), obj.entered, sorted(k for k in obj.__dict__))
+        return (view(obj), obj.entered, sorted(k for k in obj.__dict__), getattr(obj, "eq_calls", 0))
     if kind == "file":
         pos = obj.tell() if not obj.closed else None
         return ("file", pos, obj.closed)
